@@ -49,6 +49,17 @@ def cbBox? : Sx → Option CBBox
           ← pt.rat?, ← pr.rat?, ← pb.rat?, ← w.rat?, ← h.rat?⟩
   | _ => none
 
+/-- `none` (the page, or a box whose height is taken as observed) | `(relative content minH maxH)`: the heights of
+the containing block; the model then uses the height the box has when its absolute children are laid out. -/
+def cbHeights? : Sx → Option (Option (Bool × CBHeights))
+  | .atom "none" => some none
+  | .list [rel, c, mn, mx] => do pure (some (← rel.bool?, ⟨← c.rat?, ← mn.rat?, ← ext? mx⟩))
+  | _ => none
+
+def withHeights (cb : CBBox) : Option (Bool × CBHeights) → CBBox
+  | none => cb
+  | some (rel, c) => { cb with height := cbHeightAtLayout rel c }
+
 /-- `(rel rtl inl left right top bottom x y (kids…))` -/
 partial def relBox? : Sx → Option RelBox
   | .list [rel, rtl, inl, l, r, t, b, x, y, .list kids] => do
@@ -115,6 +126,17 @@ def handle (cmd : String) (args : List Sx) : Option String :=
     let cn ← cn.rat?
     pure (showErr (fun r => sp ([r.x, r.y, r.mw, r.mh, r.width, r.height, r.ml, r.mr, r.mt, r.mb].map showRat))
       (absoluteBlock st (containingRect cb) ltr sx sy mc xc ch cn))
+  | "absblock", [st, cb, ltr, sx, sy, mc, xc, ch, cn, hs] => do
+    let cb := withHeights (← cbBox? cb) (← cbHeights? hs)
+    pure (showErr (fun r => sp ([r.x, r.y, r.mw, r.mh, r.width, r.height, r.ml, r.mr, r.mt, r.mb].map showRat))
+      (absoluteBlock (← absStyle? st) (containingRect cb) (← ltr.bool?) (← sx.rat?) (← sy.rat?) (← mc.rat?)
+        (← xc.rat?) (← ch.rat?) (← cn.rat?)))
+  | "absrepldoc", [st, cb, ltr, sx, sy, hs] => do
+    let cb := withHeights (← cbBox? cb) (← cbHeights? hs)
+    pure (showErr (fun r => sp ([r.x, r.y, r.mw, r.mh, r.width, r.height, r.ml, r.mr, r.mt, r.mb].map showRat))
+      (absoluteReplacedDoc (← absStyle? st) (containingRect cb) (← ltr.bool?) (← sx.rat?) (← sy.rat?)))
+  | "cbused", [c, mn, mx] => do
+    pure (showRat (CBHeights.used ⟨← c.rat?, ← mn.rat?, ← ext? mx⟩))
   | "absrepldoc", [st, cb, ltr, sx, sy] => do
     let st ← absStyle? st
     let cb ← cbBox? cb
